@@ -401,6 +401,9 @@ func (u *universe) genRule(r *rng, action string, feat string) ruleG {
 
 	// decide ICMP / ports first: they constrain the protocol
 	wantICMP := on(8)
+	if u.plainFrag && feat == "" && r.pct(25) {
+		wantICMP = true // the fragment stream leans on the ICMP emitters
+	}
 	wantNotICMP := on(4)
 	wantPorts := on(30)
 	if u.stress && feat == "" {
@@ -1175,6 +1178,13 @@ func (g *caseGen) aim(pr *proto.Rule, p probeT) probeT {
 		p.src = a
 	} else if a, ok := g.netSetEdge(pr.SrcIpSetIds); ok {
 		p.src = a
+	}
+	// negated selector sets: a member address (excluded) as often as an outside one
+	if a, ok := g.netSetEdge(pr.NotSrcIpSetIds); ok && g.r.pct(50) {
+		p.src = a
+	}
+	if a, ok := g.netSetEdge(pr.NotDstIpSetIds); ok && g.r.pct(50) {
+		p.post = a
 	}
 	if a, ok := g.netEdge(pr.NotSrcNet); ok && (len(pr.SrcNet) == 0 || g.r.pct(40)) {
 		p.src = a // boundary of a negated list: excluded just inside, admitted just outside
